@@ -74,6 +74,8 @@ pub fn gen(tier: &str, seed: u64, outdir: &str) {
     for i in 0..60 * k {
         let (var, ls, al) = (param(&mut r), param(&mut r), param(&mut r));
         let (n, m) = (1 + r.below(maxn) as usize, 1 + r.below(maxn) as usize);
+        // a few larger sets (33..40 points on one side or both: past the tile / unroll widths of the routines underneath)
+        let (n, m) = if i % 20 == 19 { (1 + r.below(12) as usize, 33 + r.below(8) as usize) } else if i % 20 == 9 { (33 + r.below(8) as usize, 1 + r.below(12) as usize) } else { (n, m) };
         let xs = points(&mut r, n);
         let ys = if i % 3 == 0 { xs.clone() } else { points(&mut r, m) };
         let form = (i % 4) as usize;
@@ -158,7 +160,9 @@ pub fn oracle(tier: &str, seed: u64) -> (u64, Vec<Finding>) {
     let sets = if thorough { 1500 } else { 200 };
     for it in 0..sets {
         let (var, ls, al) = (param(&mut r), param(&mut r), param(&mut r));
-        let (n, m) = (1 + r.below(if thorough { 60 } else { 20 }) as usize, 1 + r.below(if thorough { 60 } else { 20 }) as usize);
+        // one set in eight is large (up to 70 points: beyond any internal tile / unroll width of the transposes and products underneath)
+        let big = it % 8 == 5;
+        let (n, m) = (1 + r.below(if big { 70 } else if thorough { 60 } else { 20 }) as usize, 1 + r.below(if big { 70 } else if thorough { 60 } else { 20 }) as usize);
         let scale = if it % 2 == 0 { ls } else { 1.0 };
         let xs: Vec<f64> = (0..n).map(|_| r.uniform(-4.0, 4.0) * scale).collect();
         let ys: Vec<f64> = (0..m).map(|_| r.uniform(-4.0, 4.0) * scale).collect();
